@@ -35,6 +35,10 @@ pub fn expand_runs(p: &Prog) -> Prog {
     Prog { sig: p.sig.clone(), cmds }
 }
 
+/// histories whose database outgrows this are dropped (counted as `too-big`), not judged:
+/// a work bound, not a correctness signal
+pub const MAX_TUPLES: usize = 6000;
+
 pub struct DiffStats {
     pub iterations_changed: usize,
     pub late_rule_fired: bool,
@@ -58,6 +62,23 @@ pub fn seminaive_diff(prog: &Prog, with_model: bool, out: &mut Outcome) -> DiffS
     let mut rs_seen: Vec<Option<usize>> = vec![];
     for (i, c) in prog.cmds.iter().enumerate() {
         let text = prog.sig.cmd(c);
+        // the reference model goes first: it carries the work bounds (match budget, state size,
+        // saturation bound), so a history that explodes is dropped before the engines run it
+        let mut model_ok = false;
+        if model_alive {
+            match model.apply(c) {
+                Ok(_) => model_ok = true,
+                Err(Stop::Discard(why)) if why.contains("budget") || why.contains("too large") || why.contains("converge") => {
+                    out.class("too-big");
+                    return stats;
+                }
+                Err(_) => model_alive = false,
+            }
+        }
+        if a.num_tuples() > MAX_TUPLES {
+            out.class("too-big");
+            return stats;
+        }
         let ra = eng::run(&mut a, &text);
         let rb = eng::run(&mut b, &text);
         if let CmdRes::Panic(p) = &ra {
@@ -135,19 +156,14 @@ pub fn seminaive_diff(prog: &Prog, with_model: bool, out: &mut Outcome) -> DiffS
             _ => {}
         }
         prev = da;
-        if model_alive {
-            match model.apply(c) {
-                Ok(_) => {
-                    let md = canon_from_raw(&model.raw_dump(), &CanonOpts::default());
-                    if md != prev {
-                        out.fail(
-                            "both-differ-from-model",
-                            format!("after command #{i} `{text}`: both engines agree with each other (left) but differ from the reference model (right):\n{}", prev.diff(&md)),
-                        );
-                        return stats;
-                    }
-                }
-                Err(_) => model_alive = false,
+        if model_alive && model_ok {
+            let md = canon_from_raw(&model.raw_dump(), &CanonOpts::default());
+            if md != prev {
+                out.fail(
+                    "both-differ-from-model",
+                    format!("after command #{i} `{text}`: both engines agree with each other (left) but differ from the reference model (right):\n{}", prev.diff(&md)),
+                );
+                return stats;
             }
         }
     }
